@@ -173,7 +173,7 @@ def run(ck):
                         bad.append("dangling references: " + impl[2])
                     if impl[3] != "1":
                         bad.append("wrapper indices are not 1..n")
-                    if impl[4] != "wrapper=1 nesting=1 unique=1":
+                    if impl[4] != "wrapper=1 nesting=1 unique=1 seqs=1":
                         bad.append("links/unique names: " + impl[4])
                     if bad:
                         ck.violation("real-db:%s" % bad[0].split(":")[0], "interrogate %s on %s wrote a database with %s" % (" ".join(opts), hp.name, "; ".join(bad)),
